@@ -120,10 +120,23 @@ pub fn ctor(r: &mut Rep, ri: u16, pbase: u64) {
             for (sn, sv) in slot_contents {
                 // slot index the constructor must look at = p4 index of the address
                 let p4i = ((addr >> 39) & 0x1ff) as usize;
+              for env in 0..5u8 {
                 fill_table_at(addr, p4i, sv);
-                if rec {
-                    // also plant a decoy in a neighbouring slot so that reading the wrong slot shows
-                    unsafe { *(addr as *mut u64).add((p4i + 1) % 512) = l4_phys | 3 };
+                // the verdict depends on slot p4i alone: plant entries that point at the loaded root in other slots
+                // (a second recursive window, a slot being migrated): above, below, at both ends, everywhere else
+                let decoy = (cr3 & 0x000f_ffff_ffff_f000) | 3;
+                let others: Vec<usize> = match env {
+                    0 => vec![],
+                    1 => vec![(p4i + 1) % 512],
+                    2 => vec![(p4i + 511) % 512],
+                    3 => vec![0, 511].into_iter().filter(|&k| k != p4i).collect(),
+                    _ => (0..512).filter(|&k| k != p4i).collect(),
+                };
+                if !rec && env > 1 {
+                    continue;
+                }
+                for k in others {
+                    unsafe { *(addr as *mut u64).add(k) = if env == 1 && rec { l4_phys | 3 } else { decoy } };
                 }
                 cpu().cr[3] = cr3;
                 cpu().clear_events();
@@ -131,7 +144,7 @@ pub fn ctor(r: &mut Rep, ri: u16, pbase: u64) {
                 let res = run_fault(|| RecursivePageTable::new(table).map(|_| ()));
                 r.ev(true);
                 r.transitions += 1;
-                let case = format!("ctor {} {:#x} addr={:#x} cr3={:#x} slot={}", ri, pbase, addr, cr3, sn);
+                let case = format!("ctor {} {:#x} addr={:#x} cr3={:#x} slot={} other-slots={}", ri, pbase, addr, cr3, sn, ["empty", "root-above", "root-below", "root-at-0-and-511", "root-everywhere-else"][env as usize]);
                 let present = sv & 1 == 1;
                 let frame_eq = (sv & 0x000f_ffff_ffff_f000) == (cr3 & 0x000f_ffff_ffff_f000);
                 let exp = if !rec { "NotRecursive" } else if !(present && frame_eq) { "NotActive" } else { "Ok" };
@@ -145,6 +158,7 @@ pub fn ctor(r: &mut Rep, ri: u16, pbase: u64) {
                 if got != exp {
                     r.viol(&format!("C20|RecursivePageTable::new|expected={}|got={}", exp, got), &case, "");
                 }
+              }
             }
         }
         if rec {
